@@ -7,7 +7,7 @@
 (*                 | "err:.."                                                *)
 (*  Trigger s      the harness starts ending the asker (route s)             *)
 (*  AskerDead      the asker has handled its own OnKilled                    *)
-(*  Pending m      150 ms later request m still has no result                *)
+(*  Pending m      1.5 s later request m still has no result (the longest time-out is 4 s)                *)
 (*  Check v        registrations the system still holds at that moment       *)
 EXTENDS Integers, Sequences, FiniteSets, TLC, Json
 VARIABLES l, bad, asks, res, triggered, isDead, pending
